@@ -5,6 +5,8 @@ pub mod pretty;
 
 mod config;
 mod utils;
+#[cfg(typstyle_verif)]
+pub mod verif;
 
 pub use attr::AttrStore;
 pub use config::Config;
@@ -54,16 +56,26 @@ impl Typstyle {
         inspector: impl FnOnce(&ArenaDoc<'_>),
     ) -> Result<String, Error> {
         let root = source.root();
+        #[cfg(typstyle_verif)]
+        verif::phase("parsed");
         if root.erroneous() {
             return Err(Error::SyntaxError);
         }
         let attr_store = AttrStore::new(root);
+        #[cfg(typstyle_verif)]
+        verif::phase("attributed");
         let printer = PrettyPrinter::new(self.config.clone(), attr_store);
         let markup = root.cast().unwrap();
         let doc = printer.convert_markup(Default::default(), markup);
+        #[cfg(typstyle_verif)]
+        verif::phase("converted");
         inspector(&doc);
         let result = doc.pretty(self.config.max_width).to_string();
+        #[cfg(typstyle_verif)]
+        verif::phase("rendered");
         let result = utils::strip_trailing_whitespace(&result);
+        #[cfg(typstyle_verif)]
+        verif::phase("stripped");
         Ok(result)
     }
 }
